@@ -14,6 +14,8 @@ SWITCH = Fraction(1e-6)          # the exact value of the float literal 1e-6 use
 SWITCH_POOL = Fraction(1e-7)
 
 
+FLOAT = nn.DEFAULT_FLOAT      # dtype tag of the inputs built by these helpers (shared with the nn model)
+
 def wgt(seed, i):
     """deterministic small integer weights"""
     v = (seed * 7919 + i * 104729 + 13) % 7 - 3
@@ -186,7 +188,7 @@ def forward_plain(model, x):
     old = T.GRAD_ENABLED[0]
     T.GRAD_ENABLED[0] = False
     try:
-        y = model(T.Tensor(np.array(x, dtype=object)[None], dtype="float32"))
+        y = model(T.Tensor(np.array(x, dtype=object)[None], dtype=FLOAT[0]))
     finally:
         T.GRAD_ENABLED[0] = old
     return list(y.a[0].flat)
@@ -240,11 +242,11 @@ def sym_inputs(ctx, A, L, B, ns, concrete=None):
         # concrete sequences (enumerated by the configuration list); activations stay universally quantified
         xc = np.array(concrete[0], dtype=object)
         rc = np.array(concrete[1], dtype=object)
-        return xc, C.onehot_from_chars(xc, A, dtype="float32"), rc, C.onehot_from_chars(rc, A, dtype="float32")
+        return xc, C.onehot_from_chars(xc, A, dtype=FLOAT[0]), rc, C.onehot_from_chars(rc, A, dtype=FLOAT[0])
     xc = C.sym_chars(ctx, "x", (B, L), A)
-    X = C.onehot_from_chars(xc, A, dtype="float32")
+    X = C.onehot_from_chars(xc, A, dtype=FLOAT[0])
     rc = C.sym_chars(ctx, "r", (B, ns, L), A)
-    R = C.onehot_from_chars(rc, A, dtype="float32")
+    R = C.onehot_from_chars(rc, A, dtype=FLOAT[0])
     return xc, X, rc, R
 
 
